@@ -1,0 +1,50 @@
+//go:build verif
+
+// Contracts for govc (see /verif/DESIGN.md). Comment-only file: with the
+// build tag off it is not part of the build, with it on it adds no code.
+
+package cryptoutil
+
+//@ # the two curve conversions are mathematics inside filippo.io/edwards25519 and sha512: trusted against the symbolic vocabulary
+//@ trusted func PublicKeyToCurve25519
+//@   requires ret != nil
+//@   modifies bytes(ret)
+//@   ensures ret0 == nil ==> bytes(ret) == e2c_pub(bytes(publicKey))
+//@   ensures ret0 != nil ==> bytes(ret) == old(bytes(ret))
+//@ trusted func PrivateKeyToCurve25519
+//@   requires ret != nil
+//@   modifies bytes(ret)
+//@   ensures bytes(ret) == e2c_priv(bytes(privateKey))
+
+//@ func NonceSliceToArray
+//@   for C01, C05, C14
+//@   safety
+//@   ensures [C01.nonce.array] ret1 == nil ==> ret0 != nil && fresh(ret0) && len(nonceSlice) == 24 && bytes(ret0) == bytes(nonceSlice)
+//@   ensures len(nonceSlice) != 24 ==> ret1 != nil
+
+//@ func KeySliceToArray
+//@   for C01, C02, C14
+//@   safety
+//@   ensures [C01.key.array] ret1 == nil ==> ret0 != nil && fresh(ret0) && len(keySlice) == 32 && bytes(ret0) == bytes(keySlice)
+//@   ensures len(keySlice) != 32 ==> ret1 != nil
+
+//@ func EdwardsToMontgomeryPub
+//@   for C05, C06, C11
+//@   safety
+//@   requires pubKey != nil
+//@   ensures [C05.e2c.pub] ret1 == nil ==> ret0 != nil && fresh(ret0) && keytype(pubKey) == 1 && bytes(ret0) == e2c_pub(pkv(pubKey))
+//@   ensures [C05.e2c.pub.type] keytype(pubKey) != 1 ==> ret1 != nil
+
+//@ func EdwardsToMontgomeryPriv
+//@   for C05, C06, C11
+//@   safety
+//@   requires privKey != nil
+//@   ensures [C05.e2c.priv] ret1 == nil ==> ret0 != nil && fresh(ret0) && keytype(privKey) == 1 && bytes(ret0) == e2c_priv(skv(privKey))
+//@   ensures [C05.e2c.priv.type] keytype(privKey) != 1 ==> ret1 != nil
+
+//@ func EdwardsToMontgomery
+//@   for C05, C06, C11
+//@   safety
+//@   requires privKey != nil && pubKey != nil
+//@   ensures [C05.e2c] ret2 == nil ==> ret0 != nil && ret1 != nil && bytes(ret0) == e2c_priv(skv(privKey)) && bytes(ret1) == e2c_pub(pkv(pubKey)) && ret0 != ret1
+//@   ensures [C05.e2c.type] keytype(privKey) != 1 || keytype(pubKey) != 1 ==> ret2 != nil
